@@ -69,33 +69,43 @@ def do_import(src, sid, prop):
 
 
 def do_run(sid, check_ids=None, tier="quick"):
+    """Runs the checks against a scratch worktree of /repo HEAD with the change applied (SIMFIX_REPO points the
+    checks at it), so that /repo itself -- which background soaks read -- is never touched.  Equivalent to
+    `git -C /repo apply patch.diff; bin/check ...; git -C /repo checkout -- .`."""
     dst = os.path.join(SEEDED, sid)
     meta = json.load(open(os.path.join(dst, "meta.json")))
     check_ids = check_ids or [meta["property"]]
-    rc, out = sh("git -C /repo status --porcelain")
-    assert not out.strip(), "/repo working tree is not clean: " + out
-    rc, out = sh(f"git -C /repo apply {dst}/patch.diff")
-    if rc != 0:
-        print(sid, "patch does not apply to /repo:", out[-300:])
-        meta["checks"]["_apply"] = "failed on current /repo HEAD"
-        json.dump(meta, open(os.path.join(dst, "meta.json"), "w"), indent=1)
-        return
+    wt = f"/tmp/vt-run-{sid}"
+    sh(f"git -C /repo worktree remove --force {wt}")
+    rc, out = sh(f"git -C /repo worktree add --detach {wt} HEAD")
+    assert rc == 0, out
     try:
+        rc, out = sh(f"git apply {dst}/patch.diff", cwd=wt)
+        if rc != 0:
+            print(sid, "patch does not apply to /repo HEAD:", out[-300:])
+            meta["checks"]["_apply"] = "failed on current /repo HEAD"
+            json.dump(meta, open(os.path.join(dst, "meta.json"), "w"), indent=1)
+            return
+        meta["checks"].pop("_apply", None)
+        head = sh("git -C /repo log --format=%h -1")[1].strip()
         for cid in check_ids:
             t0 = time.time()
-            rc, out = sh(f"bin/check {cid} --tier {tier}", cwd=VERIF, env={"SIMFIX_EVIDENCE_DIR": "/tmp/simfix-mut-evidence", "SIMFIX_REPLAY_DIR": "/tmp/simfix-mut-replays"}, timeout=3600)
+            rc, out = sh(f"bin/check {cid} --tier {tier}", cwd=VERIF,
+                         env={"SIMFIX_REPO": wt, "SIMFIX_EVIDENCE_DIR": "/tmp/simfix-mut-evidence",
+                              "SIMFIX_REPLAY_DIR": "/tmp/simfix-mut-replays"}, timeout=3600)
             viol = [l for l in out.splitlines() if l.startswith("VIOLATION")]
             sigs = [l.strip() for l in out.splitlines() if l.strip().startswith(("signature:", "regression:"))]
             meta["checks"][cid] = dict(tier=tier, exit=rc, detected=rc == 1 and bool(viol), signatures=sigs[:6],
-                                       wall_s=round(time.time() - t0, 1))
+                                       wall_s=round(time.time() - t0, 1), repo_head=head)
             print(sid, cid, "exit", rc, "DETECTED" if rc == 1 and viol else ("HARNESS-ERROR" if rc == 2 else "missed"),
                   sigs[:3])
+            if rc == 2:
+                print(out[-1500:])
     finally:
-        sh("git -C /repo checkout -- .")
-        rc, out = sh("git -C /repo status --porcelain")
-        assert not out.strip(), "/repo not clean after undo: " + out
-    meta["what_was_run"] = [w for w in meta.get("what_was_run", []) if not w.startswith("git -C /repo apply")] + [
-        "git -C /repo apply patch.diff; bin/check <ID> --tier quick for the checks listed under 'checks'; git -C /repo checkout -- ."]
+        sh(f"git -C /repo worktree remove --force {wt}")
+    meta["what_was_run"] = [w for w in meta.get("what_was_run", []) if "bin/check" not in w] + [
+        "scratch worktree of /repo HEAD + git apply patch.diff; SIMFIX_REPO=<worktree> bin/check <ID> --tier quick for the "
+        "checks listed under 'checks' (same as applying the patch to /repo and undoing it); worktree removed"]
     json.dump(meta, open(os.path.join(dst, "meta.json"), "w"), indent=1)
 
 
